@@ -69,6 +69,7 @@ type pending struct {
 
 func run(c *hc.Ctx) error {
 	r := c.Rng
+	var rt c04shared.Retainer
 	var ps []pending
 	var flushErr error
 	flush := func() {
@@ -119,11 +120,13 @@ func run(c *hc.Ctx) error {
 		if r.Chance(3) {
 			mk = bin.Int128{}
 		}
+		rt.MaybeVerify(c, 4096)
 		switch op := r.Intn(5); op {
 		case 0:
 			pt := r.Bytes(hc.Pick(r, 0, 1, 15, 16, 31, 32, 55, 56, 63, 64, 119, 120, r.Range(0, 700), r.Range(0, 4096)))
 			got := crypto.MessageKey(key, pt, side)
 			c.Count("op.MessageKey")
+			rt.Keep("MessageKey", fmt.Sprintf("mk %s %s %s", sideName(side), hc.Hex(key[:]), hc.Hex(pt)), func() []byte { return got[:] })
 			line := fmt.Sprintf("mk %s %s %s", sideName(side), hc.Hex(key[:]), hc.Hex(pt))
 			c.Eval(c04shared.Sig(line), true)
 			if want := specMsgKey(key[:], pt, x); !bytes.Equal(got[:], want) {
@@ -133,6 +136,7 @@ func run(c *hc.Ctx) error {
 		case 1:
 			k, iv := crypto.Keys(key, mk, side)
 			c.Count("op.Keys")
+			rt.Keep("Keys", fmt.Sprintf("keys %s %s %s", sideName(side), hc.Hex(key[:]), hc.Hex(mk[:])), func() []byte { return append(append([]byte{}, k[:]...), iv[:]...) })
 			line := fmt.Sprintf("keys %s %s %s", sideName(side), hc.Hex(key[:]), hc.Hex(mk[:]))
 			c.Eval(c04shared.Sig(line), true)
 			if wk, wiv := specKeys(key[:], mk[:], x); !bytes.Equal(k[:], wk) || !bytes.Equal(iv[:], wiv) {
@@ -153,6 +157,7 @@ func run(c *hc.Ctx) error {
 		case 3:
 			k, iv := crypto.KeysV1(key, mk)
 			c.Count("op.KeysV1")
+			rt.Keep("KeysV1", fmt.Sprintf("keysv1 %s %s", hc.Hex(key[:]), hc.Hex(mk[:])), func() []byte { return append(append([]byte{}, k[:]...), iv[:]...) })
 			line := fmt.Sprintf("keysv1 %s %s", hc.Hex(key[:]), hc.Hex(mk[:]))
 			c.Eval(c04shared.Sig(line), true)
 			if wk, wiv := specKeysV1(key[:], mk[:], 0); !bytes.Equal(k[:], wk) || !bytes.Equal(iv[:], wiv) {
@@ -209,16 +214,55 @@ func run(c *hc.Ctx) error {
 		if detail := bindMonitor(out, key, perm.ID, msgID, inner); detail != "" {
 			c.Fail("bind-does-not-decrypt", line, detail)
 		}
+		// the returned message must stay what it is while later bind messages are produced
+		rt.Keep("EncryptBindMessage", line, func() []byte { return out })
+		rt.MaybeVerify(c, 4096)
 		add(line, hc.Hex(out), 1)
 		fields := fmt.Sprintf("ok %d %d %d %d %d %d", uint64(msgID), uint64(inner.Nonce), uint64(inner.TempAuthKeyID),
 			uint64(inner.PermAuthKeyID), uint64(inner.TempSessionID), uint32(int32(inner.ExpiresAt)))
 		add(fmt.Sprintf("unbind %s %s %s", hc.Hex(key[:]), hc.Hex(perm.ID[:]), hc.Hex(out)), fields, 1)
 	}
+	rt.Verify(c)
+	// ---- the same APIs used from 2..4 goroutines at once (each with its own random reader; the
+	// functions are pure apart from their arguments): results checked by the monitor immediately and
+	// again, byte for byte, after all workers are done
+	workers := r.Range(2, 4)
+	c04shared.Concurrently(c, &rt, workers, c.N(400, 20000)/workers, func(r *hc.RNG, w, i int) {
+		key := c04shared.GenKey(r)
+		perm := key.WithID()
+		if perm.Zero() {
+			return
+		}
+		inner := &crypto.BindAuthKeyInner{Nonce: int64(r.U64()), TempAuthKeyID: int64(r.U64()), PermAuthKeyID: int64(r.U64()),
+			TempSessionID: int64(r.U64()), ExpiresAt: int(int32(r.U64()))}
+		msgID := int64(r.U64())
+		rnd := r.Bytes(64)
+		line := fmt.Sprintf("bind %s %s %s %d %d %d %d %d %d", hc.Hex(rnd), hc.Hex(key[:]), hc.Hex(perm.ID[:]),
+			uint64(msgID), uint64(inner.Nonce), uint64(inner.TempAuthKeyID), uint64(inner.PermAuthKeyID),
+			uint64(inner.TempSessionID), uint32(int32(inner.ExpiresAt)))
+		out, err := crypto.EncryptBindMessage(bytes.NewReader(rnd), perm, msgID, inner)
+		c.Count("concurrent.EncryptBindMessage")
+		if err != nil {
+			c.Fail("bind-error", line, err.Error())
+			return
+		}
+		rt.Keep("EncryptBindMessage(concurrent)", line, func() []byte { return out })
+		if detail := bindMonitor(append([]byte{}, out...), key, perm.ID, msgID, inner); detail != "" {
+			c.Fail("bind-does-not-decrypt", line, "concurrent use, "+fmt.Sprint(workers)+" goroutines: "+detail)
+		}
+		var mk bin.Int128
+		copy(mk[:], r.Bytes(16))
+		k, iv := crypto.Keys(key, mk, crypto.Server)
+		if wk, wiv := specKeys(key[:], mk[:], 8); !bytes.Equal(k[:], wk) || !bytes.Equal(iv[:], wiv) {
+			c.Fail("keys-differ-from-spec", fmt.Sprintf("keys s %s %s", hc.Hex(key[:]), hc.Hex(mk[:])), "concurrent use")
+		}
+		c.Count("concurrent.Keys")
+	})
 	flush()
 	if flushErr != nil {
 		return flushErr
 	}
-	c.Res.Rule = "random 2048-bit auth keys (5% all-zero / all-FF / low-entropy), both directions, random message keys (3% zero), plaintext lengths clustered at the SHA block boundaries (55/56/63/64/119/120) and random up to 4096; bind messages with random 64-bit fields, edge expiries and a 10% foreign cached key id. Every case is non-trivial; distinct = distinct input line"
+	c.Res.Rule = "random 2048-bit auth keys (5% all-zero / all-FF / low-entropy), both directions, random message keys (3% zero), plaintext lengths clustered at the SHA block boundaries (55/56/63/64/119/120) and random up to 4096; bind messages with random 64-bit fields, edge expiries and a 10% foreign cached key id. Every result (bind message, keys) is retained as returned and re-read after the later calls of the run, and the bind/Keys APIs are also driven from 2..4 goroutines at once. Every case is non-trivial; distinct = distinct input line"
 	c.Note("each answer of the model carries Impl (regenerated tables) and Spec (specification text) values; both must equal the Go output")
 	return nil
 }
